@@ -35,7 +35,8 @@ fn main() {
     }
     let prop = arg(&args, "--prop").expect("--prop");
     let scope_name = arg(&args, "--scope").expect("--scope");
-    let Some(sc) = scopes::scope(&scope_name) else {
+    let product = scope_name.starts_with('P');
+    let Some(sc) = scopes::scope(if product { "P1" } else { &scope_name }) else {
         eprintln!("unknown scope {scope_name}");
         std::process::exit(2)
     };
@@ -46,7 +47,7 @@ fn main() {
         threads: arg(&args, "--threads").map(|s| s.parse().unwrap()).unwrap_or_else(|| std::thread::available_parallelism().map(|n| n.get()).unwrap_or(4)),
         stop_on_violation: true,
     };
-    let out = if scope_name.starts_with('P') {
+    let out = if product {
         gcv::product::explore_product(&scope_name, &prop, &probes, &lim)
     } else {
         explore::<Single>(&sc, &prop, &probes, &lim)
